@@ -49,6 +49,10 @@ theorem shape_rscp_var_newEmptyMap : Rscp.Gen.Shape.rscp_var_newEmptyMap = "d059
 theorem shape_rscp_var_newMap : Rscp.Gen.Shape.rscp_var_newMap = "63ae8b8dc37c650c9a7757a308782f7d" := rfl
 /-- source of `rscp_var_validateMap` is unchanged -/
 theorem shape_rscp_var_validateMap : Rscp.Gen.Shape.rscp_var_validateMap = "de4e7a33108b1c417fc133040a368714" := rfl
+/-- source of `rscp_Message_UnmarshalJSON` is unchanged -/
+theorem shape_rscp_Message_UnmarshalJSON : Rscp.Gen.Shape.rscp_Message_UnmarshalJSON = "21a6632906368e488a7c00609cffb181" := rfl
+/-- source of `rscp_Message_UnmarshalJSONValue` is unchanged -/
+theorem shape_rscp_Message_UnmarshalJSONValue : Rscp.Gen.Shape.rscp_Message_UnmarshalJSONValue = "ad7855267bd9e86963b2b498e811a176" := rfl
 /-- leaf `isRequest`: source text and argument list are unchanged -/
 theorem leaf_isRequest_src : Rscp.Gen.Leaf.isRequest_src = "((t >> TypeFlagBit) & 1) == 0" := rfl
 theorem leaf_isRequest_args : Rscp.Gen.Leaf.isRequest_args = ["t"] := rfl
